@@ -6,7 +6,7 @@ KindCode(k) == CASE k = "i2i" -> 1 [] k = "i2s" -> 2 [] k = "ptrA" -> 3 [] k = "
 ShapeHash(sh) == IF Len(sh) = 1 THEN KindCode(sh[1]) ELSE KindCode(sh[1]) * 17 + KindCode(sh[2])
 Mine(p) == (ShapeHash(p.shape.A) * 3 + ShapeHash(p.shape.B)) % Parts = Part
 Rec0(p, dir) == LET g == Gen(p) IN
-  [dir |-> dir, shape |-> p.shape, rootErr |-> p.rootErr, extErr |-> p.extErr, rootCtx |-> p.rootCtx, extCtx |-> p.extCtx, extId |-> p.extId, wrap |-> p.wrap,
+  [dir |-> dir, shape |-> p.shape, rootErr |-> p.rootErr, extErr |-> p.extErr, rootCtx |-> p.rootCtx, extCtx |-> p.extCtx, extId |-> p.extId, wrap |-> p.wrap, declB |-> p.declB,
    genOK |-> GenOK(p), model |-> Outcome(g),
    ins |-> IF GenOK(p) THEN SetToSeq(ValsN(p, RootSrc, 1)) ELSE <<>>]
 \* this run's share of the programs, plus (AllSuspects) every program whose model outcome is not plain ok/fail
